@@ -11,12 +11,12 @@ class C05(Prop):
     id = "C05"
     title = "5G-AKA: RES* and the NAS key hierarchy equal what the network derives"
     lean_module = "Stgutg.Props.C05"
-    extra_modules = ["Stgutg.Props.Glue.stgutg_RegisterUE", "Stgutg.Props.Glue.tglib_RanUeContext_DeriveRESstarAndSetKey", "Stgutg.Props.Glue.tglib_RanUeContext_DerivateKamf", "Stgutg.Props.Glue.tglib_RanUeContext_DerivateAlgKey", "Stgutg.Props.Glue.tglib_GetAuthSubscription", "Stgutg.Proofs.GenTieKdf", "Stgutg.Gen.PureSelftest"]
-    gen = ["pure-kdf", "pure-selftest", "procs"]
+    extra_modules = ["Stgutg.Props.Glue.stgutg_RegisterUE", "Stgutg.Props.Glue.UeauCommon_GetKDFValue", "Stgutg.Props.Glue.tglib_RanUeContext_DeriveRESstarAndSetKey", "Stgutg.Props.Glue.tglib_GetAuthSubscription", "Stgutg.Proofs.GenTieKdf", "Stgutg.Gen.PureSelftest", "Stgutg.Proofs.GenTieKeys", "Stgutg.Gen.PureSelftestRich"]
+    gen = ["pure-kdf", "pure-selftest", "pure-keys", "procs"]
     # tie by translation: KDFLen regenerated from UeauCommon.go IS the hand model
     theorems = ["Stgutg.Props.GluePinned." + t for t in [
         # the glue functions this property depends on are still the text the models were written from (gen procs)
-        "stgutg_RegisterUE", "tglib_RanUeContext_DeriveRESstarAndSetKey", "tglib_RanUeContext_DerivateKamf", "tglib_RanUeContext_DerivateAlgKey", "tglib_GetAuthSubscription"]] + ["Stgutg.Proofs.GenTie.Kdf.KDFLen_eq"] + ["Stgutg.Props.C05." + n for n in [
+        "stgutg_RegisterUE", "UeauCommon_GetKDFValue", "tglib_RanUeContext_DeriveRESstarAndSetKey", "tglib_GetAuthSubscription"]] + ["Stgutg.Proofs.GenTie.Kdf.KDFLen_eq", "Stgutg.Proofs.GenTie.Keys.DerivateKamf_eq", "Stgutg.Proofs.GenTie.Keys.DerivateAlgKey_eq"] + ["Stgutg.Props.C05." + n for n in [
         "kdf_eq_spec", "kdf_is_hmac_of_concat", "kausf_kseaf_kamf_eq_spec", "algkey_eq_spec",
         "snname_2digit", "snname_3digit", "snname_length", "milenage_f2345_eq_spec", "resstar_eq_spec",
         "derive_eq_spec", "op_opc"]]
@@ -28,7 +28,8 @@ class C05(Prop):
             "the RegisterUE serving-network-name expressions (evaluated from the source text) on 2-/3-digit and malformed "
             "MNC/MCC, non-canonical SUPIs, short AMF, and the fatal (os.Exit) inputs in a child process; "
             "non-trivial = ok result of aka_derive*/aka_kamf/aka_algkey/aka_kdf*/aka_snname; distinct by op line")
-    trusted_base = ["TIE BY TRANSLATION (gen pure-kdf, harness/cmd/gen/pure*.go -> lean/Stgutg/Gen/PureKdf.lean, regenerated from the source text on every run): UeauCommon.KDFLen (make, binary.BigEndian.PutUint16, uint16(len)). The theorems GenTie.Kdf.KDFLen_eq prove generated definition = hand model for ALL inputs, so a change of the Go text changes the generated definition and the theorem stops checking, whatever input would show it. Trusted here instead of sampling: the translator's grammar and its runtime Gen/PureRt.lean (Go's fixed-width arithmetic, index / slice panics, value semantics of slices under the translator's no-alias check, go/types constant evaluation); a construct outside the grammar fails closed (TRANSLATOR-FAILED file:line); the translator and its runtime are themselves checked against the Go compiler on every run: gen pure-selftest translates harness/cmd/gen/pureselftest/fns.go and writes the results of EXECUTING the compiled functions beside the translation (Gen/PureSelftest.lean: 97 calls incl. wrap-around, MinInt / -1, division by zero, index / slice panics, shadowing, break / continue, receiver mutation, as kernel-checked equalities)",
+    trusted_base = ["TIE BY TRANSLATION of the key derivation methods (gen pure-keys, harness/cmd/gen/pure*.go incl. pure_nas.go -> lean/Stgutg/Gen/PureKeys.lean, regenerated from the source text on every run): (*RanUeContext).DerivateKamf and (*RanUeContext).DerivateAlgKey, with UeauCommon.KDFLen taken from Gen/PureKdf.lean. Theorems Proofs.GenTie.Keys.DerivateKamf_eq (every UE context and all arguments: generated = Model.KeyDerivation.DerivateKamf, the context with Kamf replaced; no match of the SUPI expression = panic at groups[1]) and DerivateAlgKey_eq (every UE context whose two [16]uint8 arrays have 16 octets). Trusted here instead of sampling: the extended grammar of the translator (top of harness/cmd/gen/pure.go; self-test Gen/PureSelftestRich.lean) and the library record Lib: UeauCommon.GetKDFValue (variadic, = Model.KeyDerivation.GetKDFValue over Prims.hmac; ASSUMED to return a slice without spare capacity, so that kenc[16:32] panics exactly when the MAC is shorter than 32 octets, as the hand model says), regexp.Compile + FindStringSubmatch (the compiled expression remembers its source text; on the text '(?:imsi|supi)-([0-9]{5,15})' FindStringSubmatch is the hand model's supiFind, on any other text an ARBITRARY function, so a changed expression breaks the tie), fatal.Fatalf (ARBITRARY; unreachable under the instantiation because regexp.Compile of this text returns no error), copy into an array field as a value. NOT reached: DeriveRESstarAndSetKey (types of github.com/wmnsk/milenage and the openapi models are outside the loader) — it stays pinned by gen procs and covered by the differential domain",
+                    "TIE BY TRANSLATION (gen pure-kdf, harness/cmd/gen/pure*.go -> lean/Stgutg/Gen/PureKdf.lean, regenerated from the source text on every run): UeauCommon.KDFLen (make, binary.BigEndian.PutUint16, uint16(len)). The theorems GenTie.Kdf.KDFLen_eq prove generated definition = hand model for ALL inputs, so a change of the Go text changes the generated definition and the theorem stops checking, whatever input would show it. Trusted here instead of sampling: the translator's grammar and its runtime Gen/PureRt.lean (Go's fixed-width arithmetic, index / slice panics, value semantics of slices under the translator's no-alias check, go/types constant evaluation); a construct outside the grammar fails closed (TRANSLATOR-FAILED file:line); the translator and its runtime are themselves checked against the Go compiler on every run: gen pure-selftest translates harness/cmd/gen/pureselftest/fns.go and writes the results of EXECUTING the compiled functions beside the translation (Gen/PureSelftest.lean: 97 calls incl. wrap-around, MinInt / -1, division by zero, index / slice panics, shadowing, break / continue, receiver mutation, as kernel-checked equalities)",
                     "crypto/aes, crypto/hmac+sha256 are parameters of the theorems (Prims.aes: 16-octet blocks, Prims.hmac: 32-octet "
                     "MAC); Crypto/Aes.lean and Crypto/Sha256.lean instantiate them for the comparator only (FIPS-197, FIPS 180-4, "
                     "RFC 4231, TS 35.208 known answers)",
